@@ -156,6 +156,7 @@ PROPS = {
             U("c10_sampled_chance", ["C10.V.sampled_chance.cache_hit", "C10.V.sampled_chance.cache_fill", "C10.V.sampled_chance.reset"]),
             U("c10_cached_infoset", ["C10.V.cached_infoset.cache_hit", "C10.V.cached_infoset.draws_from_current_strategy"]),
             U("c08_advance_order", ["C10.V.cached_infoset.advance_resets_draw"]),
+            U("c10_full_chance", ["C10.V.full_chance.no_draw"]),
         ],
         kani_functions=["src/solve/multinomial.rs :: impl Distribution<usize> for Multinomial / fn sample"],
         trusted_base=[FLOAT_IDEAL, "rand::Rng::gen, rand_distr::WeightedAliasIndex (assumed contracts)"],
@@ -183,7 +184,9 @@ PROPS = {
                    "in every block that has a survivor.",
         level_note="The Filter/sum statement computing the divisor is abstracted in Verus (value arbitrary); that it is the sum "
                    "of survivors is only checked at the bounded level. Idempotence / sum-to-one up to rounding not decided.",
-        verus=[U("c18_truncate_block", ["C18.V.truncate.rescale"]), U("split_by", ["V.SplitsByMut.next.partition"])],
+        verus=[U("c18_truncate_block", ["C18.V.truncate.rescale"]),
+               U("c18_truncate_sums_to_one", ["C18.V.truncate.sums_to_one", "C18.V.truncate.flat_infoset_unchanged"]),
+               U("split_by", ["V.SplitsByMut.next.partition"])],
         kani_functions=["src/lib.rs :: impl Strategies / fn truncate"],
         trusted_base=["uninterpreted float semantics in the Verus unit"],
         not_decided=["idempotence and sum-to-one up to rounding at the bit level"],
